@@ -136,6 +136,7 @@ fn check_stream(out: &mut Out, rng: &mut Rng, msgs: &[StructureTag], encs: &[Vec
         let chunks = split_at(&stream, &cuts);
         let st2 = stream.clone();
         let cuts2 = cuts.clone();
+        crate::out::mark(&format!("framing stream={} cuts={:?}", hex(&stream), cuts));
         let got = match guarded(move || feed_real(&split_at(&st2, &cuts2))) {
             Ok(g) => g,
             Err(_) => (vec![String::from("panic")], 0, true),
